@@ -55,6 +55,15 @@ def plan(tier, seed):
                 g.append({"xtal": name, "S": S, "born": born, "layout": layout, "method": method, "factor": f})
                 n += 1
             groups.append(g)
+    # centred conventional cells with their primitive matrix (the reciprocal basis of the primitive cell is then not reduced:
+    # body-centred tetragonal, C-centred monoclinic, face-centred cubic)
+    for name, pm_, S in (("bct-AB-conv-4", "I", [[2, 0, 0], [0, 2, 0], [0, 0, 1]]), ("bct-AB-conv-4", "I", [[2, 0, 0], [0, 2, 0], [0, 0, 2]]),
+                         ("mono-C-conv-4", "C", [[2, 0, 0], [0, 2, 0], [0, 0, 1]]), ("NaCl-conv-8-interleaved", "F", [[1, 0, 0], [0, 1, 0], [0, 0, 1]])):
+        g = []
+        for layout, method, born in itertools.product(("full", "compact"), ("wang", "gonze"), ("isotropic", "random", "zero")):
+            g.append({"xtal": name, "S": S, "pm": pm_, "born": born, "layout": layout, "method": method, "factor": factors[0]})
+            n += 1
+        groups.append(g)
     meta = {"alphabet": {"crystals": xts, "S": len(Ss), "born": 3, "layout": 2, "method": 2, "factors": factors, "directions": len(DIRS), "lengths": LENGTHS, "cases": n},
             "bound": "complete product (quick: non-default factors only with random Born/full layout)", "exhaustive": True,
             "not_covered": ["Gonze-Lee with_full_terms=True (needs scipy)", "q+G representatives other than the shortest ones for Gonze-Lee (periodicity is not claimed)"]}
@@ -73,8 +82,9 @@ def make_nac(ph, kind, method, factor, seed):
     else:
         born = g.normal(size=(nat, 3, 3)) * 0.5 + np.array([np.eye(3) * (1.5 if i % 2 == 0 else -1.5) for i in range(nat)])
         born -= born.mean(axis=0)
+    # "random": a general 3x3 dielectric tensor (its antisymmetric part is allowed by several point groups, e.g. 4, 3, 6, 1, and
+    # survives phonopy's symmetrisation there); only the symmetric part enters n.eps.n
     eps = np.eye(3) * 2.7 + (0.4 * g.normal(size=(3, 3)) if kind == "random" else 0)
-    eps = (eps + eps.T) / 2
     return {"born": np.array(born, dtype="double", order="C"), "dielectric": np.array(eps, dtype="double", order="C"), "factor": float(factor), "method": method}
 
 
@@ -84,11 +94,11 @@ def run_group(cases, seed):
 
 
 def run_case(case, seed, st):
-    tag = "%s/%s/%s" % (case["method"], case["born"], case["layout"])
+    tag = "%s/%s/%s%s" % (case["method"], case["born"], case["layout"], "/pm=%s" % case["pm"] if case.get("pm") else "")
     if "ph" not in st:
         c = phx.xtal(case["xtal"])
-        st["ph"] = phx.make_phonopy(c, case["S"], None)
-        st["ph0"] = phx.make_phonopy(c, case["S"], None)  # never carries NAC parameters: reference D_noNAC
+        st["ph"] = phx.make_phonopy(c, case["S"], case.get("pm"))
+        st["ph0"] = phx.make_phonopy(c, case["S"], case.get("pm"))  # never carries NAC parameters: reference D_noNAC
         st["fc"] = phx.supercell_fc(st["ph"], phx.model_for(st["ph"], "nn", seed))
     ph = st["ph"]
     ph0 = st["ph0"]
@@ -198,6 +208,31 @@ def run_case(case, seed, st):
             got2 = np.array(dm.dynamical_matrix) - D0[0]
             if np.abs(got2 - got).max() > 1e-12 * max(np.abs(got).max(), scale):
                 return fail("batch-vs-single", "run_qpoints and DynamicalMatrixNAC.run disagree at Gamma for direction %s" % (list(d),), None, aniso)
+    # (a') the same limit approached along a line of small but non-zero q (no direction given): D(q) - D_noNAC(q) -> analytic term
+    for d in DIRS[:3] + DIRS[-2:]:
+        n_red = np.array(d, float)
+        nc = rec @ n_red
+        nZ = np.einsum("g,jga->ja", nc, Z)
+        den = nc @ eps @ nc
+        want = np.zeros((3 * nat, 3 * nat))
+        for i in range(nat):
+            for j in range(nat):
+                want[3 * i:3 * i + 3, 3 * j:3 * j + 3] = 4 * np.pi / V * f * np.outer(nZ[i], nZ[j]) / den / np.sqrt(m[i] * m[j])
+        amax = np.linalg.norm(np.asarray(ph.supercell.cell), axis=1).max()
+        for qlen in (3e-4, 2e-3):  # 1/Angstrom, above phonopy's zone-centre tolerance of 1e-5
+            # analytic remainder of both schemes is O(|q| x interpolation length) relative to the matrix scale
+            slack = 2 * np.pi * qlen * amax * scale
+            if np.abs(want).max() < 20 * slack:
+                continue
+            qs_ = n_red * (qlen / np.linalg.norm(nc))
+            ph.run_qpoints([qs_], with_dynamical_matrices=True)
+            Dq = np.array(ph.get_qpoints_dict()["dynamical_matrices"][0])
+            ph0.run_qpoints([qs_], with_dynamical_matrices=True)
+            D0q = np.array(ph0.get_qpoints_dict()["dynamical_matrices"][0])
+            trans += 2
+            e = (np.abs((Dq - D0q) - want).max() - slack) / np.abs(want).max()
+            if e > 0.05:
+                return fail("small-q-limit", "direction %s, |q| = %g 1/A: D(q)-D_noNAC(q) differs from the zone-centre term by %.3g (rel): the correction does not converge to its limit" % (list(d), qlen, e), float(e), aniso)
     # generic q: batch == single
     for q in gen:
         dm.run(q)
